@@ -122,6 +122,43 @@ example : ∃ m', sample.weld ⟨3, "Position"⟩ (· % 3) = some m' ∧ WeldSpe
 
 end weld
 
+/-! ## SplitOnUniqueMaterials -/
+
+/-- With fewer than two material ranges the mesh is returned as it is. -/
+theorem split_single (m : MeshVal α) (h : m.materials.length < 2) : m.splitOnMaterials = some [m] := by
+  unfold splitOnMaterials
+  cases hm : m.materials with
+  | nil => rfl
+  | cons a t =>
+    cases t with
+    | nil => rfl
+    | cons b t' => rw [hm] at h; simp at h; omega
+
+/-- With two or more ranges only triangle meshes are accepted. -/
+theorem split_rejects_non_triangle (m : MeshVal α) (h : 2 ≤ m.materials.length) (ht : m.topology ≠ .triangle) :
+    m.splitOnMaterials = none := by
+  unfold splitOnMaterials
+  split
+  · rename_i hm; rw [hm] at h; simp at h
+  · rename_i hm; rw [hm] at h; simp at h
+  · simp [ht]
+
+/-- The full contract (one part per distinct material in order of first appearance, the parts
+    partition the triangles by material, corners kept exactly) as one decidable predicate: evaluated
+    by the oracle `c03.holds.split_spec` on every implementation output, and on the model below.
+    NOT proved for all inputs (the loop `advanceMat` is not yet related to the written-out ranges);
+    what is proved: `split_single`, `split_rejects_non_triangle`, every part is well-formed and
+    consists of whole triangles of the input (`C02.splitOnMaterials_wf`). -/
+def split_full : Prop :=
+  ∀ (α : Type) [DecidableEq α] (m : MeshVal α) (parts : List (MeshVal α)),
+    WF m → m.splitOnMaterials = some parts → SplitSpec m parts
+
+def sample3 : MeshVal Nat :=
+  ⟨.triangle, [0, 2, 1, 2, 0, 3, 4, 4, 0], [⟨1, 7⟩, ⟨0, 9⟩, ⟨1, 8⟩, ⟨1, 7⟩],
+   [(⟨3, "Position"⟩, [10, 11, 12, 13, 14]), (⟨1, "Class"⟩, [20, 21, 22, 23, 24])]⟩
+
+example : ∃ ps, sample3.splitOnMaterials = some ps ∧ ps.length = 2 ∧ SplitSpec sample3 ps := ⟨_, rfl, by decide⟩
+
 /-! ## Attribute filters, crop, degenerate-face removal -/
 
 def cloud : MeshVal Nat :=
